@@ -9,7 +9,8 @@ number of instances and changes; NO hypothesis on the `sort` callbacks — with 
 `lyd_diff_merge_all(diff(A,B), diff(B,C))` succeeds and `lyd_diff_apply_all` of the merged diff takes `A` to `C` (structure,
 values, default flags of all leaves and leaf-list instances) — PROVIDED the two diffs MEET only in the ways `mergeSafe` lists
 (Diff/MergeSafe.lean, decidable, evaluated by the driver on every generated triple): two leaf / leaf-list nodes — every accepted
-cell of the 4 × 4 table, the 15 cell theorems of Props/C13Merge.lean — or two inner nodes with operation `none`, recursively.
+cell of the 4 × 4 table, the 15 cell theorems of Props/C13Merge.lean and three more for copies inside created subtrees — or
+two inner nodes in the cells `none` + `none`, `none` + `delete`, `create` + `delete`, `create` + `none`, recursively.
 The proof is the induction of `lyd_diff_merge_r` over the second diff (Diff/K13MergeTree.lean) on top of a forward
 specification of `lyd_diff_apply_all` for exact diffs (Diff/K13Fwd.lean: `apply_exact_obs_keyed` below).
 
@@ -17,9 +18,11 @@ What the hypothesis excludes, and what stays outside the law:
 * F18(a) (no `LYD_DIFF_DEFAULTS`), F18(b) (unrepaired `LYD_DIFF_MERGE_DEFAULTS`), the default-flagged second value of the cell
   `none` + `replace`: `merge_apply_nodefaults_fails`, `merge_apply_mergedefaults_fails`, `merge_apply_dfltvalue_fails`
   (Props/C13.lean) — the first two through the options of the statement, the third through `mergeSafe`;
-* OPEN: a subtree created or deleted as a whole by one diff and touched again below its root by the other one (the operations
-  of its descendants are INHERITED; `lyd_diff_merge_r` makes them explicit first) — `mergeSafe` is false there although the law
-  holds on the implementation (`merge_apply_outside_mergeSafe`: a kernel-checked instance); user-ordered lists.
+* outside the theorem: an inner node deleted as a whole by the first diff and created again by the second one (`delete` +
+  `create`, "delete-then-recreate") — `mergeSafe` is false there although the law holds on the implementation
+  (`merge_apply_outside_mergeSafe`: a kernel-checked instance); user-ordered lists.  Subtrees created / deleted as a whole by
+  one diff and met again by the other one in the three other ways (`create` + `none`, `create` + `delete`, `none` + `delete`)
+  ARE covered: the operations of their descendants are inherited, `lyd_diff_merge_r` makes them explicit first.
 -/
 set_option linter.unusedSimpArgs false
 namespace LyModel.Props.C13
@@ -92,14 +95,25 @@ example (hq : Generated.Diff13.mergeDfltNeedsDeletedDflt = true) :
 example : (match mergeDiff {} mcS (diff mcS true mcA mcB) (diff mcS true mcB mtC) with
     | .ok M => M.length | .error _ => 0) = 4 := by decide +kernel
 
-/-- `mergeSafe` is a limit of the PROOF, not of the code: the first diff creates `l[3]` as a whole, the second one adds a leaf-list
-instance below it (inherited `create` meets `create` / `none`): `mergeSafe` is false, the law holds (OPEN part of the recursion). -/
+/-- an instance created by the first diff and changed inside by the second (inherited `create` in the target), and one changed
+inside and then deleted (inherited `delete` in the source): inside `mergeSafe` -/
 def moB : List DNode := [ mcL "3" [.term 3 {} [] (bs "c")] ]
-def moC : List DNode := [ mcL "3" [.term 3 {} [] (bs "c"), .term 3 {} [] (bs "d")] ]
+def moC : List DNode := [ mcL "3" [.term 2 {} [] (bs "w"), .term 3 {} [] (bs "c"), .term 3 {} [] (bs "d")] ]
 
+example : mergeSafe mcS (diff mcS true [] moB) (diff mcS true moB moC) = true ∧
+    mergeSafe mcS (diff mcS true moB moC) (diff mcS true moC []) = true := by decide +kernel
+example : ∃ C', mergeApply mcS true {} [] moB moC = .ok C' ∧ dataEqL true C' moC = true :=
+  merge_apply_partial_tree (by decide +kernel) {} (fun h => by cases h) {} [] moB moC (by decide +kernel) (by decide +kernel)
+    (by decide +kernel) (by decide +kernel) (by decide +kernel) (by decide +kernel) (by decide +kernel)
+example : ∃ C', mergeApply mcS true {} moB moC [] = .ok C' ∧ dataEqL true C' [] = true :=
+  merge_apply_partial_tree (by decide +kernel) {} (fun h => by cases h) {} moB moC [] (by decide +kernel) (by decide +kernel)
+    (by decide +kernel) (by decide +kernel) (by decide +kernel) (by decide +kernel) (by decide +kernel)
+
+/-- `mergeSafe` is a limit of the PROOF, not of the code: the first diff deletes `l[3]` as a whole, the second one creates it again
+with other descendants (`delete` + `create` of an inner node): `mergeSafe` is false, the law holds (this cell is not proved). -/
 theorem merge_apply_outside_mergeSafe :
-    mergeSafe mcS (diff mcS true [] moB) (diff mcS true moB moC) = false ∧
-      (match mergeApply mcS true {} [] moB moC with | .ok r => dataEqL true r moC | .error _ => false) = true := by
+    mergeSafe mcS (diff mcS true moC []) (diff mcS true [] moB) = false ∧
+      (match mergeApply mcS true {} moC [] moB with | .ok r => dataEqL true r moB | .error _ => false) = true := by
   decide +kernel
 
 end LyModel.Props.C13
